@@ -281,6 +281,11 @@ where
         for i in 0..num_of_nodes {
             for j in 0..num_of_nodes {
                 if let Some(dist) = m_dist {
+                    // `max()` stands for "unreachable": a path through an unreachable leg does not exist,
+                    // however negative the other leg is
+                    if dist[i][k] == K::max() || dist[k][j] == K::max() {
+                        continue;
+                    }
                     let (result, overflow) = dist[i][k].overflowing_add(dist[k][j]);
                     if !overflow && dist[i][j] > result {
                         dist[i][j] = result;
